@@ -233,7 +233,7 @@ def explore(harness, params=None, budget_s=60.0, per_path=20.0, seed=0,
                 space = StateSpace(execution_deadline=start + per_path,
                                    model_check_timeout=per_path / 2, search_root=root)
                 ca = None
-                signal.alarm(int(hang_s))
+                signal.setitimer(signal.ITIMER_REAL, hang_s, 5.0)   # re-fires every 5 s in case a handler swallows it
                 try:
                     with StateSpaceContext(space), COMPOSITE_TRACER, NoTracing():
                         sym = Sym()
@@ -273,7 +273,7 @@ def explore(harness, params=None, budget_s=60.0, per_path=20.0, seed=0,
                                     rec["count"] += 1
                                 ca = CallAnalysis(VerificationStatus.CONFIRMED)  # close the leaf, keep searching
                         finally:
-                            signal.alarm(0)
+                            signal.setitimer(signal.ITIMER_REAL, 0)
                 except Hang:
                     unknown += 1
                     unknown_why["hang"] = unknown_why.get("hang", 0) + 1
@@ -302,7 +302,7 @@ def explore(harness, params=None, budget_s=60.0, per_path=20.0, seed=0,
                     stopped = "max_fail_keys"
                     break
     finally:
-        signal.alarm(0)
+        signal.setitimer(signal.ITIMER_REAL, 0)
         signal.signal(signal.SIGALRM, old)
     return dict(paths=n, confirmed=confirmed, rejected=rejected, unknown=unknown, failed=failed,
                 exhausted=bool(exhausted) and unknown == 0, stopped=stopped,
@@ -319,7 +319,7 @@ def replay(harness, vals, params=None, hang_s=60):
     params = params or {}
     c = Conc(vals)
     old = signal.signal(signal.SIGALRM, _alarm)
-    signal.alarm(int(hang_s))
+    signal.setitimer(signal.ITIMER_REAL, hang_s, 5.0)
     try:
         try:
             ok = harness(c, **params)
@@ -338,5 +338,5 @@ def replay(harness, vals, params=None, hang_s=60):
             return ("fail", "exception:" + type(e).__name__,
                     "".join(traceback.format_exception_only(type(e), e)).strip()[:300])
     finally:
-        signal.alarm(0)
+        signal.setitimer(signal.ITIMER_REAL, 0)
         signal.signal(signal.SIGALRM, old)
